@@ -140,7 +140,7 @@ func (ma *mergeAnalysis) ruleR1(c *Ctx) {
 			}
 			what := fmt.Sprintf("write of plugin value into %s %s in %s is claimed first", w.space, w.item, mf.fn.Name())
 			if g := innermostGuard(mf.claimGuards(w.block())); g != nil {
-				ma.pair(g.callee.Name(), w.item)
+				ma.pair(g.name(), w.item)
 				c.add("R1", key, w.instr.Pos(), Discharged, what, "")
 				continue
 			}
@@ -175,7 +175,7 @@ func (ma *mergeAnalysis) ruleR1(c *Ctx) {
 				via = g
 			}
 			if okAll {
-				ma.pair(via.callee.Name(), w.item)
+				ma.pair(via.name(), w.item)
 				c.add("R1", key, w.instr.Pos(), Discharged, what+" (claim-all loop)", "")
 				continue
 			}
@@ -194,7 +194,7 @@ func (ma *mergeAnalysis) pair(claim, item string) {
 
 func (ma *mergeAnalysis) ruleR1t(c *Ctx) {
 	c.rule("R1t", "claim functions and items are in bijection across all merge functions: a claim guards writes of exactly one item, an item's writes are guarded by exactly one claim function, and every claim function is used", 29)
-	claims, _, _ := claimFamily(c.M)
+	claims, _ := ledgerFamily(c.M)
 	itemOwners := map[string][]string{}
 	for _, cf := range claims {
 		items := sortedKeys(ma.pairs[cf.Name()])
@@ -349,22 +349,27 @@ func ruleR2R3(c *Ctx) {
 		return found, prob
 	}
 
+	lclaims, lclears := ledgerFamily(m)
+	// wrappers forward faithfully
 	for _, w := range claims {
 		g, prob := inner(w, true)
-		if g == nil || prob != "" {
-			c.violate("R3", w.Name(), w.Pos(), "claim wrapper forwards faithfully to one ledger method", prob)
-			continue
-		}
+		c.ok("R3", "wrapper/"+w.Name(), w.Pos(), g != nil && prob == "", "claim wrapper "+w.Name()+" forwards (id→ledger, key, plugin) faithfully to one ledger method", prob)
+	}
+	for _, w := range clears {
+		g, prob := inner(w, false)
+		c.ok("R3", "wrapper/"+w.Name(), w.Pos(), g != nil && prob == "", "clear wrapper "+w.Name()+" forwards (id→ledger, key) faithfully to one ledger method", prob)
+	}
+	for _, g := range lclaims {
 		slots := ownersSlots(m, g)
 		if len(slots) != 1 {
-			c.violate("R3", w.Name(), w.Pos(), "claim touches exactly one ledger slot", fmt.Sprintf("ledger method %s touches slots %v", g.Name(), slots))
+			c.violate("R3", g.Name(), g.Pos(), "claim touches exactly one ledger slot", fmt.Sprintf("ledger method %s touches slots %v", g.Name(), slots))
 			continue
 		}
 		slot := slots[0]
-		slotClaim[slot] = append(slotClaim[slot], w.Name())
+		slotClaim[slot] = append(slotClaim[slot], g.Name())
 		keyed := len(g.Params) == 3
 		slotKeyed[slot] = keyed
-		c.add("R3", w.Name(), w.Pos(), Discharged, fmt.Sprintf("claim wrapper %s forwards (id→ledger, key, plugin) to %s which touches only slot %q", w.Name(), g.Name(), slot), "")
+		c.add("R3", g.Name(), g.Pos(), Discharged, fmt.Sprintf("ledger claim %s touches only slot %q", g.Name(), slot), "")
 		checkClaimExclusive(c, g, slot, keyed)
 	}
 	// distinct slots, all slots covered
@@ -376,15 +381,10 @@ func ruleR2R3(c *Ctx) {
 	}
 	// clears
 	slotClear := map[string]int{}
-	for _, w := range clears {
-		g, prob := inner(w, false)
-		if g == nil || prob != "" {
-			c.violate("R3", w.Name(), w.Pos(), "clear wrapper forwards faithfully to one ledger method", prob)
-			continue
-		}
+	for _, g := range lclears {
 		slots := ownersSlots(m, g)
 		if len(slots) != 1 || len(slotClaim[slots[0]]) != 1 {
-			c.violate("R3", w.Name(), w.Pos(), "clear empties exactly one slot that a claim fills", fmt.Sprintf("ledger method %s touches slots %v", g.Name(), slots))
+			c.violate("R3", g.Name(), g.Pos(), "clear empties exactly one slot that a claim fills", fmt.Sprintf("ledger method %s touches slots %v", g.Name(), slots))
 			continue
 		}
 		slot := slots[0]
@@ -410,7 +410,7 @@ func ruleR2R3(c *Ctx) {
 				}
 			}
 		}
-		c.ok("R3", w.Name(), w.Pos(), okEff && slotClear[slot] == 1, fmt.Sprintf("clear %s empties slot %q for exactly the given key", w.Name(), slot),
+		c.ok("R3", g.Name(), g.Pos(), okEff && slotClear[slot] == 1, fmt.Sprintf("clear %s empties slot %q for exactly the given key", g.Name(), slot),
 			"the clear does not delete the given key from / reset the slot its claim fills, or the slot has several clears")
 	}
 }
@@ -418,20 +418,68 @@ func ruleR2R3(c *Ctx) {
 // checkClaimExclusive decides R2 for one ledger claim method.
 func checkClaimExclusive(c *Ctx, g *ssa.Function, slot string, keyed bool) {
 	m := c.M
+	name := g.Name()
 	recv := g.Params[0]
-	plugin := g.Params[len(g.Params)-1]
-	var key *ssa.Parameter
+	var plugin ssa.Value = g.Params[len(g.Params)-1]
+	var key ssa.Value
 	if keyed {
 		key = g.Params[1]
 	}
-	what := fmt.Sprintf("ledger method %s stores the owner only into an empty slot %q and otherwise returns the conflict error", g.Name(), slot)
+	what := fmt.Sprintf("ledger method %s stores the owner only into an empty slot %q and otherwise returns the conflict error", name, slot)
+	isSlotAddr := func(v ssa.Value) bool {
+		fa, ok := v.(*ssa.FieldAddr)
+		return ok && fa.X == ssa.Value(recv) && fieldName(fa.X.Type(), fa.Field) == slot
+	}
+	// delegation: the method hands the address of its slot, its key and its plugin to a helper and
+	// returns the helper's result; the helper's body is then the claim
+	for _, ci := range calls(g) {
+		call, ok := ci.(*ssa.Call)
+		if !ok {
+			continue
+		}
+		h := m.callee(call.Common())
+		if h == nil || len(h.Blocks) == 0 || h.Pkg == nil || h.Pkg.Pkg.Path() != pkgAdapt {
+			continue
+		}
+		si, ki, pi := -1, -1, -1
+		for i, a := range call.Call.Args {
+			switch {
+			case isSlotAddr(a):
+				si = i
+			case key != nil && a == key:
+				ki = i
+			case a == plugin:
+				pi = i
+			}
+		}
+		if si < 0 || pi < 0 || (keyed && ki < 0) {
+			continue
+		}
+		returned := true
+		for _, r := range returnsOf(g) {
+			if len(r.Results) != 1 || r.Results[0] != ssa.Value(call) {
+				returned = false
+			}
+		}
+		if !returned {
+			c.violate("R2", name, call.Pos(), what, "the method delegates to "+funcKey(h)+" but does not return its result")
+			return
+		}
+		sp := ssa.Value(h.Params[si])
+		isSlotAddr = func(v ssa.Value) bool { return v == sp }
+		plugin = h.Params[pi]
+		if keyed {
+			key = h.Params[ki]
+		}
+		g = h
+		break
+	}
 	isSlotLoad := func(v ssa.Value) bool {
 		u, ok := v.(*ssa.UnOp)
 		if !ok || u.Op != token.MUL {
 			return false
 		}
-		fa, ok := u.X.(*ssa.FieldAddr)
-		return ok && fa.X == ssa.Value(recv) && fieldName(fa.X.Type(), fa.Field) == slot
+		return isSlotAddr(u.X)
 	}
 	// the owner store(s)
 	var ownerStores []ssa.Instruction
@@ -440,11 +488,13 @@ func checkClaimExclusive(c *Ctx, g *ssa.Function, slot string, keyed bool) {
 		for _, in := range b.Instrs {
 			switch x := in.(type) {
 			case *ssa.Store:
-				fa, ok := x.Addr.(*ssa.FieldAddr)
-				if !ok || fa.X != ssa.Value(recv) {
+				if !isSlotAddr(x.Addr) {
+					if fa, ok := x.Addr.(*ssa.FieldAddr); ok && fa.X == ssa.Value(recv) && g.Params[0] == recv {
+						bad = append(bad, fmt.Sprintf("store into another slot at %s", c.pos(x.Pos())))
+					}
 					continue
 				}
-				if x.Val == ssa.Value(plugin) && !keyed {
+				if x.Val == plugin && !keyed {
 					ownerStores = append(ownerStores, x)
 					continue
 				}
@@ -465,7 +515,7 @@ func checkClaimExclusive(c *Ctx, g *ssa.Function, slot string, keyed bool) {
 				}
 				bad = append(bad, fmt.Sprintf("unexpected store into the slot at %s", c.pos(x.Pos())))
 			case *ssa.MapUpdate:
-				if keyed && isSlotLoad(x.Map) && x.Key == ssa.Value(key) && x.Value == ssa.Value(plugin) {
+				if keyed && isSlotLoad(x.Map) && x.Key == key && x.Value == plugin {
 					ownerStores = append(ownerStores, x)
 				} else {
 					bad = append(bad, fmt.Sprintf("unexpected map update at %s", c.pos(x.Pos())))
@@ -474,7 +524,7 @@ func checkClaimExclusive(c *Ctx, g *ssa.Function, slot string, keyed bool) {
 		}
 	}
 	if len(ownerStores) != 1 {
-		c.violate("R2", g.Name(), g.Pos(), what, fmt.Sprintf("found %d stores of the claiming plugin into the slot, want exactly 1; %s", len(ownerStores), strings.Join(bad, "; ")))
+		c.violate("R2", name, g.Pos(), what, fmt.Sprintf("found %d stores of the claiming plugin into the slot, want exactly 1; %s", len(ownerStores), strings.Join(bad, "; ")))
 		return
 	}
 	st := ownerStores[0]
@@ -484,7 +534,7 @@ func checkClaimExclusive(c *Ctx, g *ssa.Function, slot string, keyed bool) {
 		cd = normCond(cd)
 		if keyed {
 			if ex, ok := cd.V.(*ssa.Extract); ok && ex.Index == 1 && !cd.Pol {
-				if lk, ok := ex.Tuple.(*ssa.Lookup); ok && lk.CommaOk && isSlotLoad(lk.X) && lk.Index == ssa.Value(key) {
+				if lk, ok := ex.Tuple.(*ssa.Lookup); ok && lk.CommaOk && isSlotLoad(lk.X) && lk.Index == key {
 					empty = true
 				}
 			}
@@ -495,7 +545,7 @@ func checkClaimExclusive(c *Ctx, g *ssa.Function, slot string, keyed bool) {
 		}
 	}
 	if !empty {
-		c.violate("R2", g.Name(), st.Pos(), what, "the store of the owner is not control-dependent on the slot (for this key) being empty: a second claimant overwrites the first owner instead of being refused")
+		c.violate("R2", name, st.Pos(), what, "the store of the owner is not control-dependent on the slot (for this key) being empty: a second claimant overwrites the first owner instead of being refused")
 		return
 	}
 	// returns
@@ -513,10 +563,10 @@ func checkClaimExclusive(c *Ctx, g *ssa.Function, slot string, keyed bool) {
 		}
 	}
 	if len(bad) > 0 {
-		c.violate("R2", g.Name(), g.Pos(), what, strings.Join(bad, "; "))
+		c.violate("R2", name, g.Pos(), what, strings.Join(bad, "; "))
 		return
 	}
-	c.add("R2", g.Name(), g.Pos(), Discharged, what, "")
+	c.add("R2", name, g.Pos(), Discharged, what, "")
 }
 
 // ---------------------------------------------------------------- R4 ledger persistence
@@ -616,8 +666,12 @@ func ruleR5(c *Ctx) {
 	m := c.M
 	c.rule("R5", "errors reach the runtime: every call of a claim or of a merge function has its error tested and returned on the non-nil branch (or is returned directly); the exported request methods return (nil, err); the only place an error may be dropped is update() under the plugin's IgnoreFailure flag", 60)
 	claims, _, _ := claimFamily(m)
+	lclaims, _ := ledgerFamily(m)
 	family := map[*ssa.Function]bool{}
 	for _, f := range claims {
+		family[f] = true
+	}
+	for _, f := range lclaims {
 		family[f] = true
 	}
 	for _, f := range mergeFamily(m) {
@@ -770,7 +824,7 @@ func (ma *mergeAnalysis) ruleR6(c *Ctx) {
 			}
 		}
 		for _, cc := range all {
-			base := mf.fn.Name() + "/" + cc.callee.Name()
+			base := mf.fn.Name() + "/" + cc.name()
 			ord[base]++
 			key := base
 			if ord[base] > 1 {
@@ -783,7 +837,7 @@ func (ma *mergeAnalysis) ruleR6(c *Ctx) {
 					a = ra
 				}
 			}
-			what := fmt.Sprintf("%s in %s is keyed by the target container's id", cc.callee.Name(), mf.fn.Name())
+			what := fmt.Sprintf("%s in %s is keyed by the target container's id", cc.name(), mf.fn.Name())
 			if creation {
 				okID := isResultRecv(a.Root) && a.PathString() == "request.create.Container.Id"
 				c.ok("R6", key, cc.call.Pos(), okID, what, "id argument is "+a.String()+", not the id of the container being created (r.request.create.Container.Id): ownership is recorded under another container")
@@ -806,13 +860,13 @@ func (ma *mergeAnalysis) ruleR7(c *Ctx) {
 			if cc.key == nil {
 				continue
 			}
-			base := mf.fn.Name() + "/" + cc.callee.Name()
+			base := mf.fn.Name() + "/" + cc.name()
 			ord[base]++
 			key := base
 			if ord[base] > 1 {
 				key = fmt.Sprintf("%s#%d", base, ord[base])
 			}
-			what := fmt.Sprintf("key of %s in %s is the key of the element written under it", cc.callee.Name(), mf.fn.Name())
+			what := fmt.Sprintf("key of %s in %s is the key of the element written under it", cc.name(), mf.fn.Name())
 			ka := m.ap(cc.key)
 			n, bad := 0, ""
 			for _, w := range mf.writes {
@@ -833,10 +887,10 @@ func (ma *mergeAnalysis) ruleR7(c *Ctx) {
 					if !(ea.Root == ka.Root && len(ka.Path) == len(ea.Path)+1 && strings.HasPrefix(ka.PathString(), ea.PathString()) && sameIter(cc.key, w.elems[0])) {
 						bad = fmt.Sprintf("the key claimed (%s) is not a field of the element appended (%s)", ka, ea)
 					} else {
-						if keyField[cc.callee.Name()] == nil {
-							keyField[cc.callee.Name()] = map[string]bool{}
+						if keyField[cc.name()] == nil {
+							keyField[cc.name()] = map[string]bool{}
 						}
-						keyField[cc.callee.Name()][typeOfElem(w.elems[0])+"."+ka.Path[len(ka.Path)-1]] = true
+						keyField[cc.name()][typeOfElem(w.elems[0])+"."+ka.Path[len(ka.Path)-1]] = true
 					}
 				default:
 					bad = "unrecognised write shape under a keyed claim"
@@ -845,10 +899,10 @@ func (ma *mergeAnalysis) ruleR7(c *Ctx) {
 			if n == 0 {
 				// claim-all loops: key must be a field of the loop element of the collection later written
 				if coll, _ := rangeOf(cc.key); coll != nil && len(ka.Path) >= 1 {
-					if keyField[cc.callee.Name()] == nil {
-						keyField[cc.callee.Name()] = map[string]bool{}
+					if keyField[cc.name()] == nil {
+						keyField[cc.name()] = map[string]bool{}
 					}
-					keyField[cc.callee.Name()][typeOfElemColl(coll)+"."+ka.Path[len(ka.Path)-1]] = true
+					keyField[cc.name()][typeOfElemColl(coll)+"."+ka.Path[len(ka.Path)-1]] = true
 					c.add("R7", key, cc.call.Pos(), Discharged, what+" (claim-all loop over the collection)", "")
 					continue
 				}
@@ -881,7 +935,7 @@ func (ma *mergeAnalysis) ruleR7(c *Ctx) {
 			if cc.key == nil {
 				continue
 			}
-			what := fmt.Sprintf("%s in %s clears the key whose removal was requested", cc.callee.Name(), mf.fn.Name())
+			what := fmt.Sprintf("%s in %s clears the key whose removal was requested", cc.name(), mf.fn.Name())
 			// the clear is controlled by a lookup of the same key in a marked partition, or iterates a marked partition
 			okc := false
 			for _, cd := range controls(cc.call.Block()) {
@@ -899,7 +953,7 @@ func (ma *mergeAnalysis) ruleR7(c *Ctx) {
 					okc = true
 				}
 			}
-			c.ok("R7", "clearkey/"+mf.fn.Name()+"/"+cc.callee.Name(), cc.call.Pos(), okc, what,
+			c.ok("R7", "clearkey/"+mf.fn.Name()+"/"+cc.name(), cc.call.Pos(), okc, what,
 				"the key cleared is not the key found in the set of removal-marked keys")
 		}
 	}
@@ -946,18 +1000,18 @@ func (ma *mergeAnalysis) ruleR8(c *Ctx) {
 	for _, mf := range ma.fns {
 		distinct := map[string]bool{}
 		for _, cc := range mf.claims {
-			distinct[cc.callee.Name()] = true
+			distinct[cc.name()] = true
 		}
 		for _, cc := range mf.claims {
-			base := mf.fn.Name() + "/" + cc.callee.Name()
+			base := mf.fn.Name() + "/" + cc.name()
 			ord[base]++
 			key := base
 			if ord[base] > 1 {
 				key = fmt.Sprintf("%s#%d", base, ord[base])
 			}
-			what := fmt.Sprintf("%s in %s is controlled by the plugin's own value of that item", cc.callee.Name(), mf.fn.Name())
+			what := fmt.Sprintf("%s in %s is controlled by the plugin's own value of that item", cc.name(), mf.fn.Name())
 			item := ""
-			if its := sortedKeys(ma.pairs[cc.callee.Name()]); len(its) == 1 {
+			if its := sortedKeys(ma.pairs[cc.name()]); len(its) == 1 {
 				item = its[0]
 			}
 			conds := mf.itemControls(cc.call.Block())
